@@ -294,6 +294,13 @@ func toTagged(v any, depth int, vs visited) any {
 			es[i] = toTagged(e, depth+1, vs)
 		}
 		return Node{"t": "arr", "e": es}
+	case []map[string]any:
+		// a typed table of the caller's document handed through as a value
+		es := make([]any, len(x))
+		for i, e := range x {
+			es[i] = toTagged(e, depth+1, vs)
+		}
+		return Node{"t": "arr", "e": es}
 	}
 	return Node{"t": "alien", "why": fmt.Sprintf("%T", v)}
 }
@@ -421,6 +428,13 @@ func equal(got, want any, depth int, vs visited) bool {
 		g, ok := got.(string)
 		return ok && g == w
 	case []any:
+		if gm, isTyped := got.([]map[string]any); isTyped {
+			ga := make([]any, len(gm))
+			for i := range gm {
+				ga[i] = gm[i]
+			}
+			got = ga
+		}
 		g, ok := got.([]any)
 		if !ok {
 			if gs, ok2 := got.([]string); ok2 {
@@ -497,6 +511,12 @@ func canon(b *strings.Builder, v any, depth int, vs visited) {
 		fmt.Fprintf(b, "%v", x)
 	case string:
 		fmt.Fprintf(b, "%q", x)
+	case []map[string]any:
+		xs := make([]any, len(x))
+		for i := range x {
+			xs[i] = x[i]
+		}
+		canon(b, xs, depth, vs)
 	case []any:
 		b.WriteByte('[')
 		for i, e := range x {
